@@ -216,6 +216,17 @@ def _chunk(payload):
                  "r = {{ #{c} = a }}", "r = {{ #t{c} = a }}", "r = {{ a }} //{c}", "r = {{ a }} /*{c}*/", "r = {{ a }} /*{c}", "//!{c}\nr = {{ a }}", "///{c}\nr = {{ a }}", "r ={c} {{ a }}", "r = {c}{{ a }}", 'r = {{ ^"{c}" }}',
                  'r = {{ PUSH_LITERAL("{c}") }}', "r = {{ a ~{c} b }}", "r = {{ a{c}b }}", "{c}", "r = {{ a }}{c}", 'r = {{ "a{c}', "r = {{ 'a'..'{c}' }}"]
         return check_texts([t.format(c=c) for t in sites for c in chars], "odd-characters")
+    if kind == "rule-chains":
+        # long chains of rules that each refer to the next one twice (or in a sequence, or under operators): whatever follows references -
+        # optimizer passes, analyses - must not do so once per path
+        texts = []
+        for n in ((25, 200) if payload[1] == "quick" else (25, 200, 900)):
+            for mod in (payload[2],):
+                for link in ("r{j} | r{j}", "r{j} ~ r{j}", "r{j}? ~ r{j}*", "(r{j} | r{j})+", "!r{j} ~ r{j}", "#t = r{j} ~ r{j}", "PUSH(r{j}) ~ r{j}"):
+                    chain = "".join(f"r{i} = {mod}{{ {link.format(j=i + 1)} }}\n" for i in range(n)) + f'r{n} = {{ "x" | "yz" }}\n'
+                    for head in ("a = @{ (!r0 ~ ANY)* }\n", "a = { r0 }\n", 'WHITESPACE = _{ " " }\na = { (!r0 ~ ANY)* ~ r0 }\n'):
+                        texts.append(head + chain)
+        return check_texts(texts, "rule-chains", loader=load_limited)
     if kind == "ranges":
         # every character range over a set of bounds that mean something to a regular expression or to the grammar syntax,
         # forwards and reversed (a reversed range is valid and never matches), alone and inside a choice the optimizer merges
@@ -236,7 +247,7 @@ def _chunk(payload):
 def run(tier: str) -> int:
     b = BOUNDS[tier]
     rep = common.Report("C11", tier, "fault_enumeration")
-    payloads = [("escapes",), ("semantic",), ("huge-counts",), ("long-numbers",), ("odd-characters",), ("ranges",)]
+    payloads = [("escapes",), ("semantic",), ("huge-counts",), ("long-numbers",), ("odd-characters",), ("ranges",)] + [("rule-chains", tier, m) for m in ("", "_", "@", "$")]
     for i in range(0, len(PUMP_UNITS), 3):
         payloads.append(("pumped", PUMP_UNITS[i:i + 3], [], PUMP_COUNTS[tier]))
     for oc in PUMP_CLOSERS:
@@ -303,7 +314,7 @@ def run(tier: str) -> int:
                 "(d) escape forms: \\x with 0-3 digits, \\u{..} with 0-7 digits, unterminated forms, values above U+10FFFF, surrogates, reversed ranges; (e) texts that are syntactically fine but semantically odd (undefined/duplicate/recursive rules, {0}, huge counts, deep nesting). "
                 f"(f) pumped texts: {len(PUMP_UNITS)} units (every token, openers, unterminated literal / comment / escape starts) repeated {PUMP_COUNTS[tier]} times bare, inside a rule body and around a valid rule; {len(PUMP_CLOSERS)} nested opener/closer pairs; "
                 f"{len(PUMP_POSTFIX)} postfix operator / operator-operand units chained after one operand - each load in a forked child with a 25 s deadline and a 1 GiB address space; "
-                "(g0) ranges: every character range over 38 bounds (regex metacharacters, grammar punctuation, digits, letters, escapes, U+10FFFF), forwards and reversed, alone and inside a choice the optimizer merges; (g) long numbers: 1 to 20000 digits at every repetition bound (optimizer=None) and PEEK slice bound; (h) odd characters: 22 characters (lone surrogates, NUL, C1 and Unicode line separators, BOM, non-characters, "
+                "(f2) rule chains: 25 and 200 (thorough 900) rules that each refer to the next one twice - as a choice, a sequence, under operators, predicates, tags, PUSH - under every modifier, behind three heads (the skip idiom in an atomic rule, a plain reference, the skip idiom under WHITESPACE); (g0) ranges: every character range over 38 bounds (regex metacharacters, grammar punctuation, digits, letters, escapes, U+10FFFF), forwards and reversed, alone and inside a choice the optimizer merges; (g) long numbers: 1 to 20000 digits at every repetition bound (optimizer=None) and PEEK slice bound; (h) odd characters: 22 characters (lone surrogates, NUL, C1 and Unicode line separators, BOM, non-characters, "
                 "non-ASCII digits and letters with special case mappings) at 35 places of a grammar text. "
                 "Each text is loaded with optimizer=None and with the default optimizer. Oracle: a Parser or PestGrammarError; str(error) renders; a shown 'L:C' has 1 <= L <= number of lines and 0 <= C <= len(line)+1; 20 s watchdog. "
                 "distinct_nontrivial counts the texts that were accepted (the rest were rejected with a grammar error)",
